@@ -27,7 +27,7 @@
 namespace {
 
 // ------------------------------------------------------------------------------------------------ pools
-struct Obj { int key; int id; };
+struct Obj { int key; int id; int wild; };    // o6, o7 are patterns: `wild` = "matches anything" when it is the EXPECTED object
 Obj g_objs[8];
 const size_t OUTN = 4, OUTSZ = 16;
 unsigned char g_out[OUTN][OUTSZ], g_outSeen[OUTN][OUTSZ];
@@ -37,15 +37,27 @@ std::vector<Op> g_ops;
 char g_run = 'x';
 
 extern "C" {
-// custom type "functions" of the C interface; the equality function returns 2 (not 1) for equal objects so that the
-// `!= 0` conversion of the comparator adaptor is exercised
-static int objEqual_c(const void* a, const void* b) { return ((const Obj*) a)->key == ((const Obj*) b)->key ? 2 : 0; }
+// custom type "functions" of the C interface, installed through BOTH interfaces.
+// The comparator is ASYMMETRIC: the first operand is the expected object (MockNamedValue::equals passes
+// (expected, actual)); only an EXPECTED pattern object matches anything, a pattern on the actual side does not.
+// It returns 2 (not 1) for equal objects so that the `!= 0` conversion of the comparator adaptor is exercised.
+static int objEqual_c(const void* expected, const void* actual) {
+    const Obj* e = (const Obj*) expected; const Obj* a = (const Obj*) actual;
+    return (e->wild || e->key == a->key) ? 2 : 0;
+}
 static const char* objToString_c(const void* a) {
-    static char buf[48];
-    snprintf(buf, sizeof buf, "Obj(key=%d)", ((const Obj*) a)->key);
+    static char buf[64];
+    const Obj* o = (const Obj*) a;
+    if (o->wild) snprintf(buf, sizeof buf, "Obj(<any>, id=%d)", o->id);
+    else snprintf(buf, sizeof buf, "Obj(key=%d, id=%d)", o->key, o->id);
     return buf;
 }
-static void objCopy_c(void* dst, const void* src) { memcpy(dst, src, sizeof(Obj)); }
+// the copier's direction is observable: dst gets a transformed copy (dst content != src content), src is untouched
+static void objCopy_c(void* dst, const void* src) {
+    const Obj* s = (const Obj*) src; Obj d;
+    d.key = s->key; d.id = s->id + 1000; d.wild = s->wild;
+    memcpy(dst, &d, sizeof d);
+}
 }
 
 // the same custom type through the C++ interface
@@ -528,7 +540,7 @@ std::string failure_text(const std::string& out) {
 void one_run(char which) {
     g_run = which;
     memset(g_out, 0xA5, sizeof g_out); memset(g_outSeen, 0xA5, sizeof g_outSeen);
-    for (int i = 0; i < 8; i++) { g_objs[i].key = i / 2; g_objs[i].id = 100 + i; }
+    for (int i = 0; i < 8; i++) { g_objs[i].key = i < 6 ? i / 2 : 90 + i; g_objs[i].id = 100 + i; g_objs[i].wild = i >= 6; }
     {
         TestTestingFixture fixture;
         fixture.setTestFunction(body);
@@ -536,6 +548,7 @@ void one_run(char which) {
         dump_out();
         vh::emit("> %c end", which);
         obs("stopped %lu", (unsigned long) g_i);
+        obs("objects %s", vh::hex(g_objs, sizeof g_objs).c_str());     // a copier must never write into its source
         obs("verdict %lu %s", (unsigned long) fixture.getFailureCount(),
             vh::hex(failure_text(fixture.getOutput().asCharString())).c_str());
     }
